@@ -179,7 +179,7 @@ theorem elems_step (C : Ctx) (fuel : Nat) (hn : WNode C fuel) (he : WElems C fue
             obtain ⟨ev2, ds2, vs2⟩ := q2
             simp only [he2, Option.some.injEq, Prod.mk.injEq] at henc
             obtain ⟨_, rfl, rfl⟩ := henc
-            simp only [SndElems] at hs
+            simp only [SndElems, SndElemsG] at hs
             have hc : Compat rs.head? (elemPrev C.σ ety old) := by
               intro r hr
               rcases hrs with h | h
@@ -240,7 +240,7 @@ theorem pairs_step (C : Ctx) (fuel : Nat) (hn : WNode C fuel) (hp : WPairs C fue
                 obtain ⟨ev3, ds3, rest⟩ := q3
                 simp only [he3, Option.some.injEq, Prod.mk.injEq] at henc
                 obtain ⟨_, rfl, rfl⟩ := henc
-                simp only [SndPairs] at hs
+                simp only [SndPairs, SndPairsG] at hs
                 have hc1 : Compat (rs.head?.map (·.1)) (pairPrev C.σ kty vty old).1 := by
                   intro r hr
                   rcases hrs with h | h
@@ -281,7 +281,7 @@ theorem vals_step (C : Ctx) (fuel : Nat) (hn : WNode C fuel) (hv : WVals C fuel)
   | cons ab ps =>
     obtain ⟨a, b⟩ := ab
     simp only [SndVals] at hs
-    obtain ⟨⟨rk, rv, rs', e, hsa, hqa, hb⟩, hs2⟩ := hs
+    obtain ⟨⟨rk, rv, rs', e, hsa, hqa, hla, hb⟩, hs2⟩ := hs
     subst e
     have hbit : (decide (idx < 64) && changed.testBit idx) = vm.testBit idx :=
       hbits idx (Nat.le_refl _) (by simp)
@@ -341,7 +341,7 @@ theorem vals_step (C : Ctx) (fuel : Nat) (hn : WNode C fuel) (hv : WVals C fuel)
             (by simpa using hs2) (by simpa using hlen)
             (fun j hj1 hj2 => hbits j (by omega) (by simp; omega))
           exact ⟨by simp only [ShowsPairs]; exact ⟨rk, rv, rest, rfl, hsa, hb.1, g1⟩,
-            by simp only [QuietPairs]; exact ⟨hqa, hb.2, g2⟩, g3⟩
+            by simp only [QuietPairs]; exact ⟨hqa, hb.2.1, g2⟩, g3⟩
 
 theorem wnode_prim (C : Ctx) (fuel : Nat) (env : List (String × Node)) (col : Nat) (p : Prim) (d : Option String)
     (W : AS) (s : WSt) (mk : Mk) (W' : AS) (s' : WSt) (R : St) (ds : DS) (evs : List Ev) (ds' : DS) (eff : St)
@@ -637,7 +637,7 @@ theorem fieldsH_of_snd (C : Ctx) (m mask p : Nat) (known : Bool) (rp' rp : Nat) 
   | (opt, n) :: rest, fds, idx, oi, rfs', rfs, f :: fs, hfl, hk, hm, hs => by
     simp only [FlagsOk] at hfl
     obtain ⟨hopt, _, hfl'⟩ := hfl
-    simp only [SndFields] at hs
+    simp only [SndFields, SndFieldsG, Bool.false_eq_true, false_or] at hs
     simp only [FieldsH]
     rw [← hopt] at hs
     refine ⟨fun hp => ?_, ?_⟩
@@ -647,7 +647,7 @@ theorem fieldsH_of_snd (C : Ctx) (m mask p : Nat) (known : Bool) (rp' rp : Nat) 
         · have hsnd := h1.1 hmb
           by_cases hprim : isPrimAS f = true
           · obtain ⟨v, rfl⟩ := isPrimAS_true f hprim
-            exact ⟨none, by simp [Snd], fun _ => compat_none _⟩
+            exact ⟨none, by simp [Snd, SndG], fun _ => compat_none _⟩
           · have hprim : isPrimAS f = false := by simpa using hprim
             refine ⟨_, hsnd, fun hpn => ?_⟩
             intro r hr
@@ -668,10 +668,10 @@ theorem fieldsH_of_snd (C : Ctx) (m mask p : Nat) (known : Bool) (rp' rp : Nat) 
               simpa using hr.symm
             · simp at hr
         · have hmb : m.testBit idx = false := by simpa using hmb
-          obtain ⟨hkn, ho, hsh, hq⟩ := h1.2 hmb
+          obtain ⟨⟨hkn, ho, hsh⟩, hq, hl⟩ := h1.2 hmb
           obtain ⟨e1, e2⟩ := hk hkn
           subst e1 e2
-          refine ⟨some (rfs'.headD dflt), snd_of_sync C f _ hsh hq, fun hpn => ?_⟩
+          refine ⟨some (rfs'.headD dflt), snd_of_sync C false f _ hsh hq hl, fun hpn => ?_⟩
           intro r hr
           simp only [Option.some.injEq] at hr
           unfold actualPrev
@@ -687,13 +687,13 @@ theorem fieldsH_of_snd (C : Ctx) (m mask p : Nat) (known : Bool) (rp' rp : Nat) 
             rw [hmask] at this
             simp at this
           · simpa using hmb
-        obtain ⟨hkn, _, hsh, hq⟩ := h1.2 hmb
+        obtain ⟨⟨hkn, _, hsh⟩, hq, _⟩ := h1.2 hmb
         obtain ⟨_, e2⟩ := hk hkn
         subst e2
         exact ⟨hsh, hq⟩
     · exact fieldsH_of_snd C m mask p known rp' rp rest fds.tail (idx + 1) _ rfs'.tail rfs.tail fs hfl'
         (fun hkn => ⟨(hk hkn).1, by rw [(hk hkn).2]⟩)
-        (fun j hj1 hj2 => hm j (by omega) (by simp; omega)) hs.2
+        (fun j hj1 hj2 => hm j (by omega) (by simp; omega)) hs.2.2
 
 theorem envOk_cons (C : Ctx) (env : List (String × Node)) (name : String) (n : Node) (henv : EnvOk C env)
     (hn : NodeOk C n) : EnvOk C ((name, n) :: env) := by
@@ -777,7 +777,7 @@ theorem struct_step (C : Ctx) (fuel : Nat) (hf : WFields C fuel) :
                 simp only [Option.some.injEq, Prod.mk.injEq] at henc
                 obtain ⟨_, rfl, rfl⟩ := henc
                 have hnd : C.isDictName n = false := by simpa using hdict.symm
-                simp only [Snd, hnd, Bool.false_eq_true, false_or] at hs
+                simp only [Snd, SndG, hnd, Bool.false_eq_true, false_and, false_or, true_and] at hs
                 subst hfm
                 obtain ⟨g1, g2, g3⟩ := struct_core C fuel hf _ fields (fieldsOf C n) m _ kept p fs fs _ s1 subs fs'
                   Ropt R ds ds1 ev1 effs hw1 rfl he1 hflags hlen hkept henv' hd hc hs
@@ -815,9 +815,7 @@ theorem struct_step (C : Ctx) (fuel : Nat) (hf : WFields C fuel) :
                 obtain ⟨w0, hw0, heq⟩ := findIdx?_some_get _ _ _ hfind
                 have hsh := dictRel_hit C _ _ r w0 v (hd dn) hw0 hv
                 have hsh2 := shows_setUnmodRec C _ v (shows_of_eqv C w0 _ v heq hsh)
-                refine ⟨hsh2, ?_, hd⟩
-                simp only [setUnmodRec, Quiet]
-                exact Or.inl hisd
+                exact ⟨hsh2, (quiet_setUnmodRec C _ none (snd_lax C false _ _ _ hs)).1, hd⟩
               · simp at henc
             · simp at henc
           · simp at henc
@@ -843,14 +841,14 @@ theorem struct_step (C : Ctx) (fuel : Nat) (hf : WFields C fuel) :
                     obtain ⟨_, rfl, rfl⟩ := henc
                     subst hfm
                     have hsf : SndFields C (fieldsOf C n) 0 0 (2 ^ fs.length - 1) p Ropt.isSome (optPres Ropt) (setModRecList fs) (optFields Ropt) :=
-                      sndFields_of_full C _ 0 0 _ p _ _ _ _ (sndFields_setModRec C (fieldsOf C n) 0 0 (2 ^ fs.length - 1) p fs
-                        (fun j hj => by simp [Nat.testBit_two_pow_sub_one]; omega))
+                      sndFields_setModRec C false (fieldsOf C n) 0 0 (2 ^ fs.length - 1) p fs _ _ _
+                        (fun j hj => by simp [Nat.testBit_two_pow_sub_one]; omega)
                     obtain ⟨g1, g2, g3⟩ := struct_core C fuel hf _ fields (fieldsOf C n) (2 ^ fs.length - 1) _ kept p
                       (setModRecList fs) fs _ s2 subs fs' Ropt R ds ds1 ev1 effs hw1 (visFields_setModRec C _ 0 p fs) he1 hflags
                       (by rw [setModRecList_length]; exact hlen) hkept henv' hd hc hsf
                     have hshow : Shows C (AS.struct n 0 p fr fs') (St.struct p effs) := by
                       simp only [Shows]; exact ⟨effs, rfl, g1⟩
-                    refine ⟨hshow, by simp only [Quiet]; exact Or.inl hisd, ?_⟩
+                    refine ⟨hshow, by simp only [Quiet]; exact Or.inr ⟨trivial, g2⟩, ?_⟩
                     exact dictOk_add C s2.wd ds1.tdict dn _ _ g3 hshow
                 · simp at henc
               · simp at henc
@@ -865,8 +863,8 @@ theorem visAlt_get (C : Ctx) : ∀ (i : Nat) (as : List AS) (a : AS), as[i]? = s
 
 theorem sndAlt_get (C : Ctx) : ∀ (i : Nat) (as : List AS) (a : AS) (R : Option St), as[i]? = some a → SndAlt C i as R → Snd C a R
   | _, [], _, _, h, _ => by simp at h
-  | 0, x :: xs, a, R, h, hs => by simp at h; subst h; simpa [SndAlt] using hs
-  | i + 1, x :: xs, a, R, h, hs => by simp at h; simp only [SndAlt] at hs; exact sndAlt_get C i xs a R h hs
+  | 0, x :: xs, a, R, h, hs => by simp at h; subst h; simpa [SndAlt, SndAltG] using hs
+  | i + 1, x :: xs, a, R, h, hs => by simp at h; simp only [SndAlt, SndAltG] at hs; exact sndAlt_get C i xs a R h hs
 
 theorem nodesOk_get (C : Ctx) : ∀ (i : Nat) (ns : List Node) (n : Node), ns[i]? = some n → NodesOk C ns → NodeOk C n
   | _, [], _, h, _ => by simp at h
@@ -942,7 +940,7 @@ theorem oneof_step (C : Ctx) (fuel : Nat) (hn : WNode C fuel) :
                   simp only [Option.some.injEq, Prod.mk.injEq] at henc
                   obtain ⟨_, rfl, rfl⟩ := henc
                   have hsa : Snd C a (altOf t Ropt) := by
-                    simp only [Snd] at hs
+                    simp only [Snd, SndG] at hs
                     rcases hs with hs | hs
                     · exact absurd hs ht
                     · exact sndAlt_get C (t - 1) as a _ ha hs
@@ -1014,7 +1012,7 @@ theorem arr_step (C : Ctx) (fuel : Nat) (he : WElems C fuel) :
         · rename_i ev1 ds1 effs he1
           simp only [Option.some.injEq, Prod.mk.injEq] at henc
           obtain ⟨_, rfl, rfl⟩ := henc
-          simp only [Snd] at hs
+          simp only [Snd, SndG] at hs
           obtain ⟨g1, g2, g3⟩ := he _ elem ety es (arrElems R) (optElems Ropt) subs es' s s1 ds ev1 ds1 effs hw1 he1 hok henv' hd hs
             (compat_elems Ropt R hc)
           exact ⟨by simp only [Shows]; exact ⟨effs, rfl, g1⟩, by simpa only [Quiet] using g2, g3⟩
@@ -1048,14 +1046,14 @@ theorem sync_of_sndVals (C : Ctx) (vm : Nat) : ∀ (idx : Nat) (ps : List (AS ×
     simp [ShowsPairs, QuietPairs]
   | idx, (a, b) :: ps, old, hl, hb, hs => by
     simp only [SndVals] at hs
-    obtain ⟨⟨rk, rv, rs', e, hsa, hqa, hbb⟩, hs2⟩ := hs
+    obtain ⟨⟨rk, rv, rs', e, hsa, hqa, _, hbb⟩, hs2⟩ := hs
     subst e
     have h0 := hb idx (Nat.le_refl _) (by simp)
     simp only [h0, Bool.false_eq_true, if_false] at hbb
     obtain ⟨g1, g2⟩ := sync_of_sndVals C vm (idx + 1) ps rs' (by simpa using hl)
       (fun j hj1 hj2 => hb j (by omega) (by simp; omega)) (by simpa using hs2)
     exact ⟨by simp only [ShowsPairs]; exact ⟨rk, rv, rs', rfl, hsa, hbb.1, g1⟩,
-      by simp only [QuietPairs]; exact ⟨hqa, hbb.2, g2⟩⟩
+      by simp only [QuietPairs]; exact ⟨hqa, hbb.2.1, g2⟩⟩
 
 theorem mod_two_pow_63_testBit (vm j : Nat) (hj : j < 63) : (vm % 2 ^ 63).testBit j = vm.testBit j := by
   rw [Nat.testBit_mod_two_pow]; simp [hj]
@@ -1106,10 +1104,11 @@ theorem mmap_step (C : Ctx) (fuel : Nat) (hp : WPairs C fuel) (hv : WVals C fuel
           · rename_i subs ps' s1 hw1
             simp only [Option.some.injEq, Prod.mk.injEq] at hw
             obtain ⟨rfl, rfl, rfl⟩ := hw
-            simp only [Snd] at hs
-            rcases hs with hs | ⟨hf, _⟩ | ⟨_, _, _, hR, hlenR, hsv⟩
+            simp only [Snd, SndG] at hs
+            rcases hs with hs | ⟨hf, _⟩ | ⟨_, _, _, _, hR, hlenR, hsv⟩
             · exact absurd hs hne
-            · rcases hf with hf | hf | hf
+            · rcases hf with hf | hf | hf | hf
+              · simp at hf
               · rw [hml] at hf; simp at hf
               · exact absurd hkm hf
               · omega
@@ -1164,7 +1163,7 @@ theorem mmap_step (C : Ctx) (fuel : Nat) (hp : WPairs C fuel) (hv : WVals C fuel
                 · rename_i ev1 ds1 effs he1
                   simp only [Option.some.injEq, Prod.mk.injEq] at henc
                   obtain ⟨_, rfl, rfl⟩ := henc
-                  have hsp := sndPairs_of_snd_mmap C n ps hid km vm ml Ropt hs
+                  have hsp := sndPairs_of_snd_mmap C false n ps hid km vm ml Ropt hs
                   obtain ⟨g1, g2, g3⟩ := hp _ k v kty vty ps (mmapPairs R) (optPairs Ropt) subs ps' s s1 ds ev1 ds1 effs hw1 he1
                     hok.1 hok.2 henv' hd hsp (compat_pairs Ropt R hc)
                   exact ⟨by simp only [Shows]; exact ⟨_, rfl, g1⟩, by simp only [Quiet]; exact Or.inr ⟨trivial, trivial, trivial, g2⟩, g3⟩
